@@ -292,3 +292,157 @@ def run(F, rep, tier):
                 "%s (%s)" % (nm, fs.crate))
     rep.analysed["generic_instantiations_skipped"] = generic_skipped
     rep.analysed["must_run_reachable_bodies"] = len(reach)
+
+
+    # ---------- R4 instruction layout
+    from lib import codec as C
+    core = F.syn("mech_core.lib")
+    meth = {}
+    for it in core:
+        if it["k"] == "method" and not it["trait"]:
+            meth[(X.type_head(it["self"]), it["name"])] = it
+        if it["k"] == "fn":
+            meth[("", it["name"])] = it
+    enc = meth.get(("EncodedInstr", "write_to"))
+    blen = meth.get(("EncodedInstr", "byte_len"))
+    dwr = meth.get(("DecodedInstr", "write_to"))
+    dec = meth.get(("", "decode_instructions"))
+    opfrom = meth.get(("OpCode", "from_u8"))
+    if rep.check(all(x is not None for x in (enc, dec, opfrom)), "C06-R4", "anchor:instruction-codec", "EncodedInstr::write_to / decode_instructions / OpCode::from_u8 not found"):
+        # opcode byte table: enum discriminants vs from_u8 arms
+        disc = {}
+        for it in core:
+            if it["k"] == "enum" and it["name"] == "OpCode":
+                for v in it["variants"]:
+                    if v["disc"] is not None:
+                        disc[v["name"]] = int(render(v["disc"]).replace("_", ""), 0) if re.match(r"^(0x[0-9a-fA-F_]+|\d+)$", render(v["disc"])) else None
+        fromtab = {}
+        for m in find(opfrom["body"], "match"):
+            for a in m[2]:
+                pt = render_pat(a[0]) if False else None
+                lit = a[0]
+                if lit[0] == "plit":
+                    val = render(lit[1])
+                    var = re.search(r"OpCode::(\w+)", render(a[2]))
+                    if var:
+                        try:
+                            fromtab[var.group(1)] = int(val.replace("_", ""), 0)
+                        except ValueError:
+                            pass
+        rep.floor("C06-R4", "opcodes with an explicit byte value", len(disc), 8)
+        for v, b in sorted(disc.items()):
+            rep.check(fromtab.get(v) == b, "C06-R4", "opcode-byte:%s" % v, "OpCode::%s is written as byte %s but OpCode::from_u8 maps byte %s to it" % (v, b, fromtab.get(v)),
+                      sample={"opcode": v, "written": b, "decoded_from": fromtab.get(v)})
+        earms = C.arms_of(enc["body"], "EncodedInstr")
+        darms = C.arms_of(dec["body"], "OpCode")
+        warms = C.arms_of(dwr["body"], "DecodedInstr") if dwr else {}
+        larms = C.arms_of(blen["body"], "EncodedInstr") if blen else {}
+        rep.floor("C06-R4", "encoder arms", len(earms), 8)
+        for ev, arm in sorted(earms.items()):
+            seq = C.io_seq(arm[2], "write")
+            if not seq:
+                continue
+            opm = re.search(r"OpCode::(\w+)", seq[0][1])
+            if not rep.check(seq[0][0] == "u8" and opm is not None, "C06-R4", "enc:%s:opcode-first" % ev, "EncodedInstr::%s does not start with its opcode byte: %s" % (ev, seq[:2])):
+                continue
+            op = opm.group(1)
+            da = darms.get(op)
+            if not rep.check(da is not None, "C06-R4", "dec:%s:arm" % op, "decode_instructions has no arm for OpCode::%s written by EncodedInstr::%s" % (op, ev)):
+                continue
+            rseq = C.read_bindings(da[2])
+            wfields = [(w, re.sub(r"^[*&(]+|[)]+$", "", a).split(" as ")[0].strip("*& ")) for w, a in seq[1:]]
+            # variadic: a count followed by a loop is compared by widths only for the prefix
+            ok = [w for w, _ in wfields][:len(rseq)] == [w for w, _ in rseq][:len(wfields)] and abs(len(wfields) - len(rseq)) <= 1
+            rep.check(ok, "C06-R4", "layout:%s" % op, "OpCode::%s: the encoder writes %s but the decoder reads %s" % (op, wfields, rseq), sample={"opcode": op, "written": wfields, "read": rseq})
+            # field order: dst is the first u32 on both sides; names agree where both are identifiers
+            wn = [n for w, n in wfields if re.fullmatch(r"\w+", n)]
+            rn = [n for w, n in rseq]
+            common = [x for x in wn if x in rn]
+            rep.check([x for x in rn if x in common] == common, "C06-R4", "field-order:%s" % op, "OpCode::%s: encoder field order %s differs from decoder field order %s" % (op, wn, rn))
+            # the decoded struct is built from the bindings it read
+            built = [s for s in find(da[2], "struct") if s[1].startswith("DecodedInstr::")]
+            rep.check(len(built) >= 1, "C06-R4", "dec:%s:builds" % op, "decoder arm for OpCode::%s builds no DecodedInstr" % op)
+            # byte_len
+            la = larms.get(ev)
+            if la is not None:
+                nums = [int(x) for x in re.findall(r"\b(\d+)\b", render(la[2]))]
+                total = sum(C.W[w] for w, _ in seq if w in C.W)
+                if "len()" not in render(la[2]):
+                    rep.check(sum(nums) == total, "C06-R4", "byte_len:%s" % ev, "EncodedInstr::%s writes %d bytes but byte_len() says %d" % (ev, total, sum(nums)))
+            # re-encoder (DecodedInstr::write_to) writes the same layout
+            wa = None
+            for dv, a2 in warms.items():
+                s2 = C.io_seq(a2[2], "write")
+                if s2 and re.search(r"OpCode::%s\b" % op, s2[0][1]):
+                    wa = s2
+            if warms:
+                rep.check(wa is not None and [w for w, _ in wa] == [w for w, _ in seq], "C06-R4", "reencode:%s" % op,
+                          "ParsedProgram::to_bytes (DecodedInstr::write_to) writes OpCode::%s as %s but the compiler writes %s" % (op, wa, seq))
+    # run_program argument order: FunctionArgs::<Arity>(dst, a, b..) from the decoded fields in instruction order
+    run = [it for it in F.syn("mech_interpreter.lib") if it["k"] == "method" and it["name"] == "run_program"]
+    if rep.check(len(run) == 1, "C06-R4", "anchor:run_program", "run_program not found"):
+        n_args = 0
+        for m in find(run[0]["body"], "match"):
+            for a in m[2]:
+                pt = a[0]
+                if pt[0] == "pstruct" and pt[1].startswith("DecodedInstr::"):
+                    fields = [f[0] for f in pt[2]]
+                    regs = [f for f in fields if f not in ("fxn_id", "const_id")]
+                    for c in find(a[2], "call"):
+                        pc = path_of(c[1]) or ""
+                        if pc.startswith("FunctionArgs::"):
+                            n_args += 1
+                            used = []
+                            for arg in c[2]:
+                                names = [x[1] for x in find(arg, "path") if x[1] in regs or re.sub(r"_(val|value|reg|v)$", "", x[1]) in regs]
+                                used.append(re.sub(r"_(val|value|reg|v)$", "", names[0]) if names else None)
+                            exp = regs[:len(used)]
+                            okk = [u for u in used if u] == [e for e, u in zip(exp, used) if u]
+                            rep.check(okk, "C06-R4", "run_program:%s:argument-order" % pt[1].split("::")[-1],
+                                      "run_program builds %s from the instruction fields in order %s, the instruction carries them as %s" % (pc, used, regs))
+        rep.floor("C06-R4", "FunctionArgs constructions in run_program", n_args, 3)
+
+    # ---------- R5 constant encoders: the two encoders of a type agree; byte-length prefixes measure the bytes they precede
+    encs = {}
+    for it in core:
+        if it["k"] == "method" and it["trait"] and last_seg(it["trait"]) in ("CompileConst", "ConstElem") and it["name"] in ("compile_const", "write_le", "from_le"):
+            encs[(X.canon_type(it["self"]), it["name"])] = it
+    types = sorted({t for (t, n) in encs})
+    n5 = 0
+    for t in types:
+        cc, wl, fl = encs.get((t, "compile_const")), encs.get((t, "write_le")), encs.get((t, "from_le"))
+        for which, it in (("compile_const", cc), ("write_le", wl)):
+            if it is None:
+                continue
+            seq = C.io_seq(it["body"], "write")
+            locs = {st[1][1]: render(st[2]) for st in find(it["body"], "let") if len(st) == 4 and st[2] is not None and st[1][0] == "pident"}
+            for i in range(len(seq) - 1):
+                if seq[i][0] in C.W and seq[i + 1][0] == "bytes":
+                    pre = seq[i][1].strip()
+                    if pre.startswith("(") and pre.endswith(")"):
+                        pre = pre[1:-1]
+                    pre = pre.split(" as ")[0].strip()
+                    pre = locs.get(pre, pre)
+                    pay = seq[i + 1][1]
+                    base = re.sub(r"\.as_bytes\(\)$", "", pay).lstrip("&")
+                    n5 += 1
+                    ok = re.sub(r"\s", "", pre) in (base + ".len()", pay + ".len()", base + ".as_bytes().len()")
+                    rep.check(ok, "C06-R5", "%s::%s:length-prefix" % (t, which),
+                              "%s::%s writes the length prefix `%s` before the bytes `%s`: the decoder reads that many BYTES, so the prefix must be the byte length of exactly that payload" % (t, which, pre, pay),
+                              sample={"type": t, "encoder": which, "prefix": pre, "payload": pay})
+        if cc is not None and wl is not None:
+            a = [w for w, _ in C.io_seq(cc["body"], "write")]
+            b = [w for w, _ in C.io_seq(wl["body"], "write")]
+            deleg = any(m[2] == "write_le" and "self" in render(m[1]) for m in find(cc["body"], "mcall"))
+            if a and b and not deleg:
+                n5 += 1
+                rep.check(a == b, "C06-R5", "%s:encoders-agree" % t, "%s: CompileConst::compile_const writes %s but ConstElem::write_le writes %s (the decoder from_le reads one format)" % (t, a, b),
+                          sample={"type": t, "compile_const": a, "write_le": b})
+        if wl is not None and fl is not None:
+            wseq = [w for w, _ in C.io_seq(wl["body"], "write") if w in C.W]
+            rseq = [w for w, _ in C.io_seq(fl["body"], "read") if w in C.W]
+            loops = any(True for _ in find(wl["body"], "for")) or any(True for _ in find(fl["body"], "for"))
+            if wseq and rseq and not loops:
+                n5 += 1
+                rep.check(wseq == rseq, "C06-R5", "%s:write-read-widths" % t, "%s: write_le writes %s, from_le reads %s" % (t, wseq, rseq), sample={"type": t, "widths": wseq})
+    rep.floor("C06-R5", "constant codec obligations", n5, 10)
